@@ -25,6 +25,7 @@ def rules(ctx, report, facts, config, pfx="C02"):
     report.guard(pfx + ".DEPHIT", P.matrix, ctx, report, pfx + ".DEPHIT", facts, config, ("dephit", "index"))
     report.guard(pfx + ".DEPHIT", P.allgroups, ctx, report, pfx + ".DEPHIT", facts, config)
     report.guard(pfx + ".DEPGATE", P.depgate, ctx, report, pfx + ".DEPGATE", facts, config)
+    report.guard(pfx + ".INTERSECT", P.intersect_body, ctx, report, pfx + ".INTERSECT", facts, config)
     report.guard(pfx + ".ORDER", P.dep_order, ctx, report, pfx + ".ORDER", facts, config)
     report.guard(pfx + ".ORDER", P.accept, ctx, report, pfx + ".ORDER", facts, config, ("chain", "accept-sound"))
     report.guard(pfx + ".CROSSOFF", P.crossoff, ctx, report, pfx + ".CROSSOFF", facts, config, ("own-stage",))
